@@ -38,7 +38,7 @@ def main(argv):
                 "event production / consumer pulls / source end), plus requests refused by validation or variable coercion; "
                 "distinct_nontrivial = distinct cases with >= 2 events")
     rep.assumptions = ["stand-in parser", "the source stream is a harness-owned async generator whose events are made available on demand"]
-    cfgs = ["MC_sub_2.cfg", "MC_sub_3.cfg", "MC_sub_frag.cfg"]
+    cfgs = ["MC_sub_2.cfg", "MC_sub_3.cfg", "MC_sub_frag.cfg", "MC_sub_fragd.cfg"]
     if common.tier() == "thorough":
         cfgs += ["MC_sub_2_big.cfg", "MC_sub_3_big.cfg"]
     results = genrun.run_jobs("checks.c14", "job", [{"cfg": c} for c in cfgs])
